@@ -45,6 +45,11 @@ PYVC_MODULES = [
     "contracts.transpose_axes",
     "contracts.reshape_driver",
     "contracts.reductions",
+    "contracts.abelian_misc",
+    "contracts.unfuse",
+    "contracts.local_ops",
+    "contracts.local_sort",
+    "contracts.missing_blocks",
 ]
 
 # Dependency closure: a property also rests on the functions its anchored code CALLS.  A contract task is run
@@ -60,6 +65,9 @@ EXTRA_PROPS = [
     ("C05._fuse_core", FUSE_USERS),
     ("C05.fuse.", FUSE_USERS),
     ("C05.accum_for_split", FUSE_USERS),
+    ("C05.unfuse", FUSE_USERS),  # unfuse / unfuse_all: the way back of every fuse (fused contraction, reshape)
+    ("C05.fermionic_fuse", ["C07"]),
+    ("C05.fermionic_unfuse", ["C07"]),
     ("C15.cached_fuse_block_info", FUSE_USERS + ["C15"]),
     ("C01.BlockIndex", FUSE_USERS + ["C08", "C11"]),  # conj / copy_with of index trees (structural ops, bond indices)
     ("C05.BlockIndex", FUSE_USERS + ["C08"]),
@@ -104,13 +112,13 @@ _ALL = {
     "C02": _p(
         ["bounded.run_C02", "bounded.run_history"],
         "other",
-        "Proof core: axes parsing / pairing bookkeeping obligations of the contraction code, matmul axis convention and scalar unwrapping, the fused strategy's orchestration, sector alignment (rank 2), and -- by dependency closure -- every contract about fusing, the layout memo and the index classes (the fused path is a fuse / matmul / unfuse). Element-level equality with the dense contraction is numpy semantics and is decided by the bounded tier: exact comparison (integer data) against np.tensordot/np.einsum/np.trace on an independent densifier, all modes.",
+        "Proof core: axes parsing / pairing bookkeeping obligations of the contraction code, matmul axis convention and scalar unwrapping, the fused strategy's orchestration, sector alignment (rank 2; rank 3 with two contracted pairs), single-array einsum for enumerated equations of rank <= 4 with any number of blocks (stored keys = projections of the stored diagonal sectors, every block the finite sum of the einsums of exactly its contributing blocks, indices, scalar / zero result) and trace (sum of the block traces over exactly the diagonal sectors), transpose for every spelling of the axes incl. axes counted from the end, unfuse (rank 2, see C05), the function-style entry points, and -- by dependency closure -- every contract about fusing, the layout memo and the index classes (the fused path is a fuse / matmul / unfuse). Element-level equality with the dense contraction is numpy semantics and is decided by the bounded tier: exact comparison (integer data) against np.tensordot/np.einsum/np.trace on an independent densifier, all modes.",
         frames=['immutable', 'key_covers'],
     ),
     "C03": _p(
         ["bounded.run_C03", "bounded.run_koszul"],
         "other",
-        "Proof core: each sign-table operation multiplies the pending sign of exactly the stored sectors by the specified factor (parity sum for phase_flip, ghost Koszul sign for phase_transpose) and leaves everything else untouched, out of place with frames; calc_phase_permutation reversal branch. Bounded: element-exact comparison with an independent graded (Grassmann) tensor calculator validated against a brute-force anticommuting-polynomial evaluator.",
+        "Proof core: the fermionic wrappers trace / @ / einsum put the parity sign on exactly the contracted pairs that meet as ket-then-bra, bring traced pairs adjacent as (bra, ket) by one fermionic transpose, read raw blocks only from synchronised copies and never touch the operands; each sign-table operation multiplies the pending sign of exactly the stored sectors by the specified factor (parity sum for phase_flip, ghost Koszul sign for phase_transpose) and leaves everything else untouched, out of place with frames; calc_phase_permutation reversal branch. Bounded: element-exact comparison with an independent graded (Grassmann) tensor calculator validated against a brute-force anticommuting-polynomial evaluator.",
     ),
     "C04": _p(
         ["bounded.run_C04"],
@@ -121,25 +129,25 @@ _ALL = {
     "C05": _p(
         ["bounded.run_C05", "bounded.run_history"],
         "other",
-        "Proof core: accum_for_split returns exactly the consecutive prefix-sum intervals (unbounded length); calc_fuse_group_info axis bookkeeping and fused direction for every family of groups (ndim <= 4; 5 thorough); the per-block layout loop of calc_fuse_block_info (fused charge = signed sum relative to the first axis of the group, fused size = product, sub-sectors in group order, sub-sector tables, memo correctness) for nine (thorough: 35) rank / group instances with any number of blocks; fuse / _fuse_core hand the cached layout, the stored blocks and the backend functions to exactly one strategy and build the result from what comes back (frames, dtype of the zero blocks); the layout memo returns what the uncached computation returns for every cache content; index trees: conj / drop_charges at every nesting level, hash memos reset. The accumulation of sub-sectors into charge tables / extents and the block-moving strategies: bounded (element-relocation oracle, exact zeros, bit-for-bit round trips, insert==concat, cache on/off).",
+        "Proof core: unfuse (rank 2, fused axis of two constituents at either position, ANY number of blocks and table entries): every stored block is cut at exactly the offsets the fused index's own table assigns (prefix sums of the extents of its fused charge, in table order), each piece reshaped to the sizes of the constituent charges and filed under the sector with the fused charge replaced by that sub-sector, nothing else stored, indices replaced by the constituents, frames; unfuse_all unfuses exactly the fused axes from last to first; the fermionic fuse / unfuse wrappers: one transpose making the groups contiguous, parity flip of exactly the non-dual members and virtual reversal of exactly the positions of every dual group, synchronise, then the abelian operation (unfuse: synchronise, split, the same flip set and reversal back); accum_for_split returns exactly the consecutive prefix-sum intervals (unbounded length); calc_fuse_group_info axis bookkeeping and fused direction for every family of groups (ndim <= 4; 5 thorough); the per-block layout loop of calc_fuse_block_info (fused charge = signed sum relative to the first axis of the group, fused size = product, sub-sectors in group order, sub-sector tables, memo correctness) for nine (thorough: 35) rank / group instances with any number of blocks; fuse / _fuse_core hand the cached layout, the stored blocks and the backend functions to exactly one strategy and build the result from what comes back (frames, dtype of the zero blocks); the layout memo returns what the uncached computation returns for every cache content; index trees: conj / drop_charges at every nesting level, hash memos reset. The accumulation of sub-sectors into charge tables / extents (second half of calc_fuse_block_info) and the two block-moving strategies: bounded (element-relocation oracle, exact zeros, bit-for-bit round trips, insert==concat, cache on/off).",
         frames=['immutable', 'key_covers'],
     ),
     "C06": _p(
         ["bounded.run_C06", "bounded.run_history"],
         "other",
-        "Proof core: the fused strategy aligns, exits early with the combined charge, fuses the contracted / free legs in the layout the partner uses and unfuses exactly the legs fused here; drop_misaligned_sectors keeps exactly the aligned sectors and used charges (rank 2, any number of blocks); layout memo and fuse entry points as in C05. Bounded tier decides values: modes agree in rank, index structure incl. sub-index info and values; contraction of fused operands equals contraction.",
+        "Proof core: the fused strategy aligns, exits early with the combined charge, fuses the contracted / free legs in the layout the partner uses and unfuses exactly the legs fused here; drop_misaligned_sectors keeps exactly the aligned sectors and used charges (rank 2, and rank 3 with two contracted pairs in any order; any number of blocks); fermionic fuse / unfuse sign pipelines and abelian unfuse as in C05; layout memo and fuse entry points as in C05. Bounded tier decides values: modes agree in rank, index structure incl. sub-index info and values; contraction of fused operands equals contraction.",
         frames=['immutable', 'key_covers'],
     ),
     "C07": _p(
         ["bounded.run_C07"],
         "other",
-        "Proof core (rank-bounded, every size symbolic): the axis matcher calc_reshape_args returns, for every drop / merge / add-size-one recipe over shapes with <= 4 axes and for the trip back from the shape its own plan produces (merged axes block-sparse: 1 <= size <= product), a well-formed plan whose application gives exactly the requested shape, and the empty plan for a request of the current shape (the two known findings F16, F17 are the only refuted obligations; their solver inputs replay natively). The array-level content (norm, stored magnitudes, exact round trip of blocks) is numpy / fuse machinery: bounded tier, which also runs the matcher exhaustively over shapes with <=5 axes of sizes {1,2,3,4,6}. By dependency closure (reshape works by fusing and unfusing) every contract about fusing, the layout memo and the index classes is also an obligation of this property.",
+        "Proof core: the reshape driver computes its plan once from the current shape, the completed request and the constituent sizes of fused axes, and executes exactly unfuse..., fuse..., expand_dims... in plan order in place on a copy (or the receiver if asked); (rank-bounded, every size symbolic) the axis matcher calc_reshape_args returns, for every drop / merge / add-size-one recipe over shapes with <= 4 axes and for the trip back from the shape its own plan produces (merged axes block-sparse: 1 <= size <= product), a well-formed plan whose application gives exactly the requested shape, and the empty plan for a request of the current shape (the two known findings F16, F17 are the only refuted obligations; their solver inputs replay natively). The array-level content (norm, stored magnitudes, exact round trip of blocks) is numpy / fuse machinery: bounded tier, which also runs the matcher exhaustively over shapes with <=5 axes of sizes {1,2,3,4,6}. By dependency closure (reshape works by fusing and unfusing) every contract about fusing, the layout memo and the index classes is also an obligation of this property.",
         frames=['immutable', 'key_covers'],
     ),
     "C08": _p(
         ["bounded.run_C08"],
         "other",
-        "Proof core: key-set algebra of _binary_blockwise_op for the three missing-modes with whole-view postconditions and frames (right operand never modified, left only in place), arithmetic dunder dispatch. Bounded: op(dense) == dense(op) exactly, three call routes.",
+        "Proof core: key-set algebra of _binary_blockwise_op for the three missing-modes with whole-view postconditions and frames (right operand never modified, left only in place), arithmetic dunder dispatch; reductions max / min / sum / all / any (the same-named backend reduction of every stored block exactly once, then of the stack), norm (root of the sum over every stored block of sum |b|^2), abs / sqrt / isfinite / clip (new array, same sectors, backend function of that name on every block, bounds in order); transpose with concrete axes in every spelling (front / end counted) for rank 2-4; dagger = conj then in-place default transpose, H, T; every function-style entry point of symmray.interface forwards all arguments to the method of the same name once and returns its result, fallbacks go to autoray under the same name. Bounded: op(dense) == dense(op) exactly, three call routes.",
     ),
     "C09": _p(
         ["bounded.run_C09"],
@@ -195,7 +203,7 @@ _ALL = {
     "C18": _p(
         ["bounded.run_C18"],
         "other",
-        "Proof core: charge index maps equal particle number / parity of the documented basis; model term lists. Bounded: elements equal Jordan-Wigner vacuum expectation values; action on states, Hermiticity, spectrum, composition.",
+        "Proof core: the phased sort of build_local_fermionic_elements (any number of operators): on exit the word is sorted by label, has the same length and phase * G(sorted) == G(original) using only exchanges of adjacent operators with different labels (stable), the word being bra-basis, term, ket-basis operators in this order; build_local_fermionic_array gives leg i and leg n+i the charge map of site i, kets non-dual then bras dual; charge index maps equal particle number / parity of the documented basis; model term lists. Bounded: elements equal Jordan-Wigner vacuum expectation values; action on states, Hermiticity, spectrum, composition.",
     ),
     "C19": _p(
         ["bounded.run_C19"],
